@@ -17,6 +17,7 @@ CONSTANTS
   Warm = 0
   ClassSet = {"push", "apply", "unary"}
   LeafKinds = {"row", "empty"}
+  Script = "none"
 INIT Init
 NEXT Next
 INVARIANT Emit
